@@ -150,6 +150,20 @@ func multi(maxc int, triples bool) []gts.Location {
 		gts.Join(gts.Complemented{Location: gts.Range(5, 7)}, gts.Complemented{Location: gts.Range(1, 3)}, gts.Range(7, 8)),
 		gts.Complemented{Location: gts.Order(gts.Join(gts.PartialRange(0, 2, gts.Partial5), gts.Range(3, 4)), gts.Point(6))},
 	)
+	// three parts that are not in ascending order: the middle part lies outside
+	// the span of the first and the last (always present, also without triples)
+	m := maxc
+	if m < 7 {
+		m = 7
+	}
+	for _, ps := range [][]gts.Location{
+		{gts.Range(0, 1), gts.Range(m-2, m), gts.Range(2, 3)},
+		{gts.Range(2, 3), gts.Range(m-2, m-1), gts.Range(0, 1)},
+		{gts.PartialRange(m-3, m-2, gts.Partial5), gts.Range(0, 2), gts.PartialRange(m-1, m, gts.Partial3)},
+		{gts.Point(1), gts.Range(m-2, m), gts.Point(3)},
+	} {
+		add(ps...)
+	}
 	return out
 }
 
